@@ -569,4 +569,156 @@ def noUndefLet : Spec → List Op → Bool
 
 end Spec
 
+/-! ## The input side: items whose effect depends on the current state
+
+The programs above (`List Op`) fix in advance which tokens open and close groups. In the real VM
+that is decided token by token from *scoped* state: a character opens a group iff its **current**
+category code is 1 (`Value::BeginGroup`, vm/mod.rs:227-231; the lexer asks
+`TexlangState::cat_code` lazily, character by character), closes one iff it is 2, and a control
+sequence or active character that was `\let` to a character token (`Command::CharacterTokenAlias`,
+vm/mod.rs:180-184: the stored token is put back) acts like that token with the category code it
+had **when the `\let` ran**. `Item`s are the surface programs; `elabItem` is the modelled dispatch
+from an item to an `Op` (or to a typeset character) in the current state. A character token value
+is coded `c + 256 * catcode` in `Cmd.tok` / `Def.ltok`. -/
+
+/-- `CatCode::PLAIN_TEX_DEFAULTS` on the characters the surface programs use: `{` 1, `}` 2,
+letters 11, the others (`[ ] < > …`) 12. -/
+def defaultCat (c : Nat) : Nat :=
+  if c = 123 then 1
+  else if c = 125 then 2
+  else if (65 ≤ c ∧ c ≤ 90) ∨ (97 ≤ c ∧ c ≤ 122) then 11
+  else 12
+
+def tokCode (c cat : Nat) : Nat := c + 256 * cat
+
+/-- `codes::cat_code(state, c)`: the current `\catcode` of `c`. -/
+def catOf (m : VMState) (c : Nat) : Nat :=
+  match alookup m.vars ⟨.catcode, c⟩ with
+  | some x => x.toNat
+  | none => defaultCat c
+
+inductive Item where
+  | op (o : Op)                                   -- anything of the op language, written as before
+  | chr (c : Nat)                                 -- the character `c` typed in the source
+  | exec (t : CTarget)                            -- the name `t` used as a command
+  | letChr (pre : Nat) (t : CTarget) (c : Nat)    -- `\let t=<the character c>` (category code as of now)
+  deriving DecidableEq, Repr
+
+/-- What an item turns out to be. -/
+inductive Elab where
+  | op (o : Op)
+  | out (o : Out)      -- no effect on the state; `unit` = the harness does not write the item
+  deriving DecidableEq, Repr
+
+/-- A character token in the main loop (vm/mod.rs:227-239): category 1 begins a group, 2 ends one,
+anything else goes to the character handler (typeset: reported as the token). -/
+def charAction (c cat : Nat) : Elab :=
+  if cat = 1 then .op .beginGroup
+  else if cat = 2 then .op .endGroup
+  else .out (.cmd (some (.tok (tokCode c cat))) none)
+
+def elabItem (cat : Nat → Nat) (meaning : CTarget → Option Cmd) : Item → Elab
+  | .op o => .op o
+  | .chr c => charAction c (cat c)
+  | .exec t =>
+    match meaning t with
+    | some (.tok code) => charAction (code % 256) (code / 256)   -- the aliased token is put back
+    | some (.font f) => .op (.selectFont 0 f)                   -- `Command::Font`
+    | _ => .out .unit                                           -- (macros, variables, …: not written)
+  | .letChr pre t c => .op (.define pre t (.ltok (tokCode c (cat c))))
+
+def stepItem (cfg : Variant) (m : VMState) (it : Item) : VMState × Out :=
+  match elabItem (catOf m) (getCmd m) it with
+  | .op o => step cfg m o
+  | .out o => (m, o)
+
+def runItems (cfg : Variant) : VMState → List Item → VMState × List Out
+  | m, [] => (m, [])
+  | m, it :: its =>
+    let r := stepItem cfg m it
+    if r.2.fatal then (r.1, [r.2])
+    else
+      let rs := runItems cfg r.1 its
+      (rs.1, r.2 :: rs.2)
+
+namespace Spec
+
+def catOf (e : Env) (c : Nat) : Nat :=
+  match e.var ⟨.catcode, c⟩ with
+  | some x => x.toNat
+  | none => defaultCat c
+
+/-- The specification reads an item in its current environment. -/
+def stepItem (s : Spec) (it : Item) : Spec × Out :=
+  match elabItem (catOf s.cur) (getCmd s.cur) it with
+  | .op o => s.step o
+  | .out o => (s, o)
+
+def runItems : Spec → List Item → Spec × List Out
+  | s, [] => (s, [])
+  | s, it :: its =>
+    let r := s.stepItem it
+    if r.2.fatal then (r.1, [r.2])
+    else
+      let rs := runItems r.1 its
+      (rs.1, r.2 :: rs.2)
+
+/-- … and with TeX's `\let` from an undefined name (C01-d). -/
+def stepItemTeX (s : Spec) (it : Item) : Spec × Out :=
+  match elabItem (catOf s.cur) (getCmd s.cur) it with
+  | .op o => s.stepTeX o
+  | .out o => (s, o)
+
+def runItemsTeX : Spec → List Item → Spec × List Out
+  | s, [] => (s, [])
+  | s, it :: its =>
+    let r := s.stepItemTeX it
+    if r.2.fatal then (r.1, [r.2])
+    else
+      let rs := runItemsTeX r.1 its
+      (rs.1, r.2 :: rs.2)
+
+/-- No item of the program turns out to be a `\let` from an undefined name. -/
+def noUndefLetItems : Spec → List Item → Bool
+  | _, [] => true
+  | s, it :: its =>
+    (match elabItem (catOf s.cur) (getCmd s.cur) it with
+      | .op o => !(undefLet s o)
+      | .out _ => true) &&
+    (if (s.stepItem it).2.fatal then true else noUndefLetItems (s.stepItem it).1 its)
+
+end Spec
+
+/-! ## Two code variants that the mutation sweep could not tell from the code (mutants 15, 29) -/
+
+/-- Mutant 15: `VM::begin_group` pushes `Some(current_font)` instead of `None`. -/
+def beginGroupEager (m : VMState) : VMState :=
+  let m1 := mapBeginGroup .fixed m
+  { m1 with save := [] :: m1.save, fontSave := some m1.font :: m1.fontSave }
+
+def stepEager (m : VMState) : Op → VMState × Out
+  | .beginGroup => (beginGroupEager m, .unit)
+  | op => step .fixed m op
+
+def runEager : VMState → List Op → VMState × List Out
+  | m, [] => (m, [])
+  | m, op :: ops =>
+    let r := stepEager m op
+    if r.2.fatal then (r.1, [r.2])
+    else
+      let rs := runEager r.1 ops
+      (rs.1, r.2 :: rs.2)
+
+/-- Mutant 29: a definition primitive calls the scope hook *after* it has parsed (resolved) its
+arguments. -/
+def defineLate (cfg : Variant) (m0 : VMState) (pre : Nat) (t : CTarget) (d : Def) : Option VMState :=
+  if pre ≠ 0 ∧ needsFixC d ∧ cfg.fixC = false then none
+  else
+    let m1 := applyPrefix pre m0
+    match resolveDef m1 d with
+    | none => some (readAndResetGlobal m1).2
+    | some c =>
+      let r := readAndResetGlobal m1
+      some (insertCmd r.2 t c (defScope d r.1))
+
 end C01
